@@ -66,11 +66,6 @@ func c14Eq(a, b c14Opt) bool {
 	return !a.has || vt.EqualRows(a.row, b.row)
 }
 
-func c14Lookup(d *vt.Dict, k vt.Row) c14Opt {
-	v, ok := d.Get(k)
-	return c14Opt{row: v, has: ok}
-}
-
 func c14Odd(ks vt.Schema, k vt.Row) bool {
 	if p, ok := c12PosOf(ks.Kinds[0], k[0]); ok {
 		return p%2 == 1
@@ -118,9 +113,7 @@ type c14Collision struct {
 }
 
 type c14Expect struct {
-	result    *vt.Dict
-	divergent []c12Change // K + From=base; (left/right looked up separately)
-	keys      []vt.Row    // every key changed on at least one side, ascending
+	result *vt.Dict
 }
 
 func c14TypeOf(from, to c14Opt) tree.DiffType {
@@ -711,5 +704,5 @@ func TestVerif_C14(t *testing.T) {
 		"the collision handler returns its resolution as Diff{Key: left.Key, From: left.From, To: resolved value or nil for delete}, the way merge_prolly_rows.go does",
 		"handler invocations are compared as a set with exactly-once (their order is not part of the property)")
 	defer rec.Write(t)
-	vh.Check(t, "merge", 900, 2500, func(rt *rapid.T) { c14Case(rt, rec) })
+	vh.Check(t, "merge", 1800, 2500, func(rt *rapid.T) { c14Case(rt, rec) })
 }
